@@ -437,6 +437,12 @@ class Fn:
             a, b = wp[i], rp[i]
             if a == b:
                 continue
+            if a[0] == 'i' and b[0] == 'i' and len(a) > 1 and len(b) > 1:
+                ca, cb = const_val(a[1]), const_val(b[1])
+                if ca is not None and cb is not None:
+                    if ca == cb:
+                        continue
+                    return 0          # two different constant elements of an array
             if a[0] == 'i' or b[0] == 'i':
                 return 1 if True else 0
             if a[0] == 'v' and b[0] == 'v':
@@ -566,12 +572,25 @@ class Fn:
                 # projection of an aggregate we know
                 if isinstance(e, tuple) and e[0] == 'agg' and p[1].isdigit() and int(p[1]) < len(e[2]) and (e[1] in ('tuple', 'array') or '::' in e[1]):
                     e = e[2][int(p[1])]
+                elif isinstance(e, tuple) and e[0] == 'entry':
+                    # a field of the value a place had at entry = the value its field place had at entry
+                    e = ('entry', ('field', e[1], p[1]))
                 else:
                     e = ('field', e, p[1])
             elif p[0] == 'v':
-                e = ('variant', e, p[1])
+                if isinstance(e, tuple) and e[0] == 'entry':
+                    e = ('entry', ('variant', e[1], p[1]))
+                else:
+                    e = ('variant', e, p[1])
             else:
-                e = ('index', e, p[1] if len(p) > 1 else ('?',))
+                ix = p[1] if len(p) > 1 else ('?',)
+                ci = const_val(ix) if len(p) > 1 else None
+                if isinstance(e, tuple) and e[0] == 'repeat':
+                    e = e[1]
+                elif isinstance(e, tuple) and e[0] == 'agg' and e[1] == 'array' and ci is not None and 0 <= ci < len(e[2]):
+                    e = e[2][ci]
+                else:
+                    e = ('index', e, ix)
         return e
 
     def _stmt_write(self, bi, i, st, rlv, rroot):
@@ -602,7 +621,16 @@ class Fn:
         if ov == 2:
             # project the written value down to the read sub-path
             wp, rp = self.path_of(wlv), self.path_of(rlv)
-            return (self._project(val, rp[len(wp):]), True)
+            rest = rp[len(wp):]
+            rv_ = st['rv']
+            if rest and rv_['k'] == 'use' and rv_['a']['k'] in ('copy', 'move') and all(p_[0] in ('f', 'v') or (p_[0] == 'i' and len(p_) > 1 and const_val(p_[1]) is not None) for p_ in rest):
+                # a whole-object copy: read the corresponding part of the source (keeps element-wise precision)
+                src = self.lv(rv_['a']['place'], (bi, i))
+                if not (isinstance(src, tuple) and src[0] == 'phi'):
+                    for p_ in rest:
+                        src = ('field', src, p_[1]) if p_[0] == 'f' else ('variant', src, p_[1]) if p_[0] == 'v' else ('index', src, p_[1])
+                    return (self.read(src, (bi, i)), True)
+            return (self._project(val, rest), True)
         return (('partial', val), False)
 
     def _term_write(self, bi, rlv, rroot):
@@ -813,6 +841,69 @@ class Fn:
         edges = [(tg, v) for v, tg in t['targets']] + [(t['otherwise'], None)]
         return d, edges, [v for v, _ in t['targets']]
 
+    # enums of std whose variant count the analysis may rely on (discriminants 0..n-1)
+    STD_ENUM_VARIANTS = {'std::net::IpAddr': 2, 'std::option::Option': 2, 'std::result::Result': 2}
+
+    def _enum_variants_of_discr(self, bi):
+        """Variant count of the enum whose discriminant the switch of block bi tests (None if not an enum
+        discriminant or unknown type).  The discriminant must have been read by a `discriminant(place)` statement."""
+        t = self.blocks[bi]['term']
+        if t['k'] != 'switch' or t['discr']['k'] not in ('copy', 'move') or t['discr']['place']['p']:
+            return None
+        l = t['discr']['place']['l']
+        for st in reversed(self.blocks[bi]['stmts']):
+            if not st['lhs']['p'] and st['lhs']['l'] == l:
+                if st['rv']['k'] != 'discr':
+                    return None
+                pl = st['rv']['place']
+                try:
+                    ty = place_type(self, pl)
+                except Exception:
+                    ty = None
+                if ty is None:
+                    return None
+                base = re.sub(r'<.*$', '', ty.lstrip('&').replace('mut ', ''))
+                if base in self.STD_ENUM_VARIANTS:
+                    return self.STD_ENUM_VARIANTS[base]
+                adt = self.facts.adts.get(base)
+                if adt and adt.get('kind') == 'enum':
+                    return len(adt['variants'])
+                return None
+        return None
+
+    def infeasible_edges(self):
+        """`otherwise` edges of enum-discriminant switches that no value can take: the explicit values of the
+        switch, together with those of dominating switches on the same discriminant expression that can only be
+        left towards this block through their own otherwise edge, cover every variant (if-let chains leave such
+        edges in unoptimised MIR)."""
+        if getattr(self, '_infeasible', None) is not None:
+            return self._infeasible
+        out = []
+        dom = self.dominators()
+        for bi in range(self.n):
+            if self.blocks[bi]['cleanup']:
+                continue
+            n = self._enum_variants_of_discr(bi)
+            if not n:
+                continue
+            se = self.switch_edges(bi)
+            d, edges, vals = se
+            covered = set(vals)
+            for pb in dom.get(bi, ()):
+                if pb == bi or self.blocks[pb]['term']['k'] != 'switch':
+                    continue
+                pse = self.switch_edges(pb)
+                if pse[0] != d or isinstance(d, tuple) and d[0] in ('phi', 'cyc'):
+                    continue
+                oth = self.blocks[pb]['term']['otherwise']
+                # bi reachable from pb only through pb's otherwise edge
+                if bi not in self.reachable(pb, removed_edges=[(pb, oth)]) - {pb}:
+                    covered |= set(pse[2])
+            if covered >= set(range(n)):
+                out.append((bi, self.blocks[bi]['term']['otherwise']))
+        self._infeasible = out
+        return out
+
     def gate_edges(self, pred_fn):
         """All CFG edges (b, s) for which pred_fn(discr_expr, value, other_values) is true.
         value None means the `otherwise` edge; other_values are the explicit switch values."""
@@ -908,8 +999,18 @@ class Facts:
         with open(path) as fh:
             self.d = json.load(fh)
         self.fns = {}
+        # helper functions that are not anchors of the rule set are inlined into their callers (vlib/inline.py)
+        from . import inline as _inl
+        self.anchors = _inl.load_anchors()
+        il = _inl.Inliner(self.d['fns'], self.anchors)
+        self.d['fns'] = il.run()
+        # helpers whose every call site was inlined: analysed only in the context of their callers
+        self.inlined_helpers = {h: sorted(cs) for h, cs in il.inlined_into.items() if not il.kept_calls.get(h)}
         for f in self.d['fns']:
+            if f['id'] in self.inlined_helpers:
+                continue
             self.fns[f['id']] = Fn(f, self)
+        self.helper_fns = {f['id']: f for f in self.d['fns'] if f['id'] in self.inlined_helpers}
         self.statics = self.d['statics']
         self.fmt = self.d['fmt']
         self.adts = {a['id']: a for a in self.d.get('adts', [])}
